@@ -400,7 +400,8 @@ func (n *walNode) exec(act *wAct) (crashed bool, atoms int, err error) {
 				crashed = true
 				return
 			}
-			panic(r)
+			// a panic of the code under test is an answer, not a harness failure
+			err = fmt.Errorf("PANIC: %v", r)
 		}
 	}()
 	ww := n.ww
@@ -530,6 +531,11 @@ func (n *walNode) observe(origin string) *realObs {
 	ww := n.ww
 	o := &realObs{State: wState{Ent: map[string]wEntry{}, Inv: map[string]uint64{}}, ByBlk: map[string]*wByBlk{}}
 	prob := func(f string, a ...interface{}) { o.Problems = append(o.Problems, fmt.Sprintf(f, a...)) }
+	defer func() {
+		if r := recover(); r != nil {
+			prob("PANIC while reading the WAL back: %v", r)
+		}
+	}()
 
 	last, err := n.cdb.GetRaftEntryLastIdx()
 	if err != nil {
